@@ -171,10 +171,12 @@ def main():
                  kind_free_text="compile_fail doctests with compiling twins (cargo +nightly test --doc) against the tree under test"),
             dict(name="derive_family", path="/verif/derive_family", serves_properties=["C08", "C12", "C19", "C04"],
                  kind_free_text="generated program family (derive macro x arity x mode), compiled for MIR extraction, never run"),
+            dict(name="derive_family_big", path="/verif/derive_family_big", serves_properties=["C08", "C12", "C19"],
+                 kind_free_text="thorough tier: larger generated family (arities up to 5 x 5, outputs-first / interleaved field orders), compiled for MIR extraction, never run"),
             dict(name="positive", path="/verif/positive", serves_properties=["C04", "C06", "C07", "C09", "C15", "C16", "C18"],
                  kind_free_text="positive controls: deliberately wrong code every zero-count rule must fire on (non-vacuity)"),
             dict(name="selftest", path="/verif/selftest", serves_properties=sorted(claimed),
-                 kind_free_text="83+ compiling mutants and 14 behaviour-preserving edits: ./check selftest (both-ways test of the checker)"),
+                 kind_free_text="100+ compiling mutants, 15 behaviour-preserving edits, every independently seeded change (seeded/) and every independently written neutral refactor (neutral_seeded/): ./check selftest (both-ways test of the checker)"),
         ],
         checks=checks,
         not_applicable=na,
